@@ -6,12 +6,13 @@ import re
 
 from harness import core, inputs, xdoc
 
-GEN = ['gen_tables', 'gen_regex', 'gen_config', 'gen_escapes']
-THEOREMS = ['C07_first_wins', 'C07_document_lookup', 'C07_containers_transparent', 'C07_two_phase', 'C07_no_output']
+GEN = ['gen_tables', 'gen_regex', 'gen_config', 'gen_escapes', 'gen_core']
+THEOREMS = ['C07_definition_scanners_are_the_source', 'C07_first_wins', 'C07_document_lookup', 'C07_containers_transparent', 'C07_two_phase', 'C07_no_output']
 TRUSTED = ['the parser model (Model/Block.v, Build.v, Inline.v, CoreTokens.v): hand-written control flow, regenerated patterns/tables/configuration; '
            'tied by X-doc (tree, Document.footnotes with order, line numbers)',
            'the definition-placement generator (oracle side)']
-ASSUMPTIONS = ['which text is accepted as a definition (syntax of label, destination, title) is the model of Footnote.read/match_reference, tied by '
+ASSUMPTIONS = ['which text is accepted as a definition: the scanners of label, destination and title are the source\'s (translated on every run, proved equal to the '
+               'model\'s: C07_definition_scanners_are_the_source); how Footnote.match_reference and Footnote.read put them together is the hand-written model, tied by '
                'correspondence and by the specification examples (C02), not specified independently',
                'that the block phase never reads the footnote map is a structural fact of the model (the map is not threaded through it); the '
                'correspondence run compares Document.footnotes, order included']
